@@ -298,3 +298,211 @@ package notify
 //@   ensures [no-decision-no-notification] !called("needsUpdate") ==> result1 == nil && result2 != nil
 //@   ensures [complete-context-decides] called("notify.GroupKey") && ret1("notify.GroupKey") && called("notify.RepeatInterval") && ret1("notify.RepeatInterval") && called("NotificationLog).Query")
 //@             && (ret1("NotificationLog).Query") == nil || ret("errors.Is")) && len(ret("NotificationLog).Query")) <= 1 ==> called("needsUpdate")
+
+// ---- C04/C15/C20: the values a flush carries in its context (receiver, group key, repeat interval, firing and
+// resolved sets, flush instant, interval names, route, reason ...). Each setter stores its argument under its own key
+// and each getter reads that same key and type: the pairs cannot be crossed (e.g. firing for resolved).
+//@ func WithReceiverName
+//@   props C04 C20
+//@   nosafe
+//@   at call context.WithValue assert [stored-under-its-own-key] arg0 == ctx && typeis(arg1, notifyKey) && unbox(arg1, notifyKey) == keyReceiverName && typeis(arg2, string) && unbox(arg2, string) == rcv
+//@   ensures [the-derived-context] count("context.WithValue") == 1 && result == ret("context.WithValue")
+//@   noeffect context.WithValue
+//@ func WithGroupKey
+//@   props C04 C20
+//@   nosafe
+//@   at call context.WithValue assert [stored-under-its-own-key] arg0 == ctx && typeis(arg1, notifyKey) && unbox(arg1, notifyKey) == keyGroupKey && typeis(arg2, string) && unbox(arg2, string) == s
+//@   ensures [the-derived-context] count("context.WithValue") == 1 && result == ret("context.WithValue")
+//@   noeffect context.WithValue
+//@ func WithFiringAlerts
+//@   props C04 C20
+//@   nosafe
+//@   at call context.WithValue assert [stored-under-its-own-key] arg0 == ctx && typeis(arg1, notifyKey) && unbox(arg1, notifyKey) == keyFiringAlerts && typeis(arg2, []uint64) && unbox(arg2, []uint64) == alerts
+//@   ensures [the-derived-context] count("context.WithValue") == 1 && result == ret("context.WithValue")
+//@   noeffect context.WithValue
+//@ func WithResolvedAlerts
+//@   props C04 C20
+//@   nosafe
+//@   at call context.WithValue assert [stored-under-its-own-key] arg0 == ctx && typeis(arg1, notifyKey) && unbox(arg1, notifyKey) == keyResolvedAlerts && typeis(arg2, []uint64) && unbox(arg2, []uint64) == alerts
+//@   ensures [the-derived-context] count("context.WithValue") == 1 && result == ret("context.WithValue")
+//@   noeffect context.WithValue
+//@ func WithGroupLabels
+//@   props C04 C20
+//@   nosafe
+//@   at call context.WithValue assert [stored-under-its-own-key] arg0 == ctx && typeis(arg1, notifyKey) && unbox(arg1, notifyKey) == keyGroupLabels && typeis(arg2, model.LabelSet) && unbox(arg2, model.LabelSet) == lset
+//@   ensures [the-derived-context] count("context.WithValue") == 1 && result == ret("context.WithValue")
+//@   noeffect context.WithValue
+//@ func WithRouteLabels
+//@   props C04 C20
+//@   nosafe
+//@   at call context.WithValue assert [stored-under-its-own-key] arg0 == ctx && typeis(arg1, notifyKey) && unbox(arg1, notifyKey) == keyRouteLabels && typeis(arg2, model.LabelSet) && unbox(arg2, model.LabelSet) == rl
+//@   ensures [the-derived-context] count("context.WithValue") == 1 && result == ret("context.WithValue")
+//@   noeffect context.WithValue
+//@ func WithNow
+//@   props C04 C20
+//@   nosafe
+//@   at call context.WithValue assert [stored-under-its-own-key] arg0 == ctx && typeis(arg1, notifyKey) && unbox(arg1, notifyKey) == keyNow && typeis(arg2, time.Time) && unbox(arg2, time.Time) == t
+//@   ensures [the-derived-context] count("context.WithValue") == 1 && result == ret("context.WithValue")
+//@   noeffect context.WithValue
+//@ func WithRepeatInterval
+//@   props C04 C20
+//@   nosafe
+//@   at call context.WithValue assert [stored-under-its-own-key] arg0 == ctx && typeis(arg1, notifyKey) && unbox(arg1, notifyKey) == keyRepeatInterval && typeis(arg2, time.Duration) && unbox(arg2, time.Duration) == t
+//@   ensures [the-derived-context] count("context.WithValue") == 1 && result == ret("context.WithValue")
+//@   noeffect context.WithValue
+//@ func WithMuteTimeIntervals
+//@   props C04 C20
+//@   nosafe
+//@   at call context.WithValue assert [stored-under-its-own-key] arg0 == ctx && typeis(arg1, notifyKey) && unbox(arg1, notifyKey) == keyMuteTimeIntervals && typeis(arg2, []string) && unbox(arg2, []string) == mt
+//@   ensures [the-derived-context] count("context.WithValue") == 1 && result == ret("context.WithValue")
+//@   noeffect context.WithValue
+//@ func WithActiveTimeIntervals
+//@   props C04 C20
+//@   nosafe
+//@   at call context.WithValue assert [stored-under-its-own-key] arg0 == ctx && typeis(arg1, notifyKey) && unbox(arg1, notifyKey) == keyActiveTimeIntervals && typeis(arg2, []string) && unbox(arg2, []string) == at
+//@   ensures [the-derived-context] count("context.WithValue") == 1 && result == ret("context.WithValue")
+//@   noeffect context.WithValue
+//@ func WithRouteID
+//@   props C04 C20
+//@   nosafe
+//@   at call context.WithValue assert [stored-under-its-own-key] arg0 == ctx && typeis(arg1, notifyKey) && unbox(arg1, notifyKey) == keyRouteID && typeis(arg2, string) && unbox(arg2, string) == routeID
+//@   ensures [the-derived-context] count("context.WithValue") == 1 && result == ret("context.WithValue")
+//@   noeffect context.WithValue
+//@ func WithNotificationReason
+//@   props C04 C20
+//@   nosafe
+//@   at call context.WithValue assert [stored-under-its-own-key] arg0 == ctx && typeis(arg1, notifyKey) && unbox(arg1, notifyKey) == keyNotificationReason && typeis(arg2, NotifyReason) && unbox(arg2, NotifyReason) == reason
+//@   ensures [the-derived-context] count("context.WithValue") == 1 && result == ret("context.WithValue")
+//@   noeffect context.WithValue
+//@ func WithMutedAlerts
+//@   props C04 C20
+//@   nosafe
+//@   at call context.WithValue assert [stored-under-its-own-key] arg0 == ctx && typeis(arg1, notifyKey) && unbox(arg1, notifyKey) == keyMutedAlerts && typeis(arg2, map[uint64]struct{}) && unbox(arg2, map[uint64]struct{}) == alerts
+//@   ensures [the-derived-context] count("context.WithValue") == 1 && result == ret("context.WithValue")
+//@   noeffect context.WithValue
+//@ func WithAggrGroupID
+//@   props C04 C20
+//@   nosafe
+//@   at call context.WithValue assert [stored-under-its-own-key] arg0 == ctx && typeis(arg1, notifyKey) && unbox(arg1, notifyKey) == keyAggrGroupID && typeis(arg2, string) && unbox(arg2, string) == id
+//@   ensures [the-derived-context] count("context.WithValue") == 1 && result == ret("context.WithValue")
+//@   noeffect context.WithValue
+//@ func WithFlushID
+//@   props C04 C20
+//@   nosafe
+//@   at call context.WithValue assert [stored-under-its-own-key] arg0 == ctx && typeis(arg1, notifyKey) && unbox(arg1, notifyKey) == keyFlushID && typeis(arg2, uint64) && unbox(arg2, uint64) == id
+//@   ensures [the-derived-context] count("context.WithValue") == 1 && result == ret("context.WithValue")
+//@   noeffect context.WithValue
+//@ func WithGroupMatchers
+//@   props C04 C20
+//@   nosafe
+//@   at call context.WithValue assert [stored-under-its-own-key] arg0 == ctx && typeis(arg1, notifyKey) && unbox(arg1, notifyKey) == keyGroupMatchers && typeis(arg2, labels.Matchers) && unbox(arg2, labels.Matchers) == matchers
+//@   ensures [the-derived-context] count("context.WithValue") == 1 && result == ret("context.WithValue")
+//@   noeffect context.WithValue
+//@ func WithNflogStore
+//@   props C04 C20
+//@   nosafe
+//@   at call context.WithValue assert [stored-under-its-own-key] arg0 == ctx && typeis(arg1, notifyKey) && unbox(arg1, notifyKey) == keyNflogStore && typeis(arg2, *nflog.Store) && unbox(arg2, *nflog.Store) == store
+//@   ensures [the-derived-context] count("context.WithValue") == 1 && result == ret("context.WithValue")
+//@   noeffect context.WithValue
+//@ func RepeatInterval
+//@   props C04 C20
+//@   nosafe
+//@   at call Context).Value assert [read-under-its-own-key] arg0 == ctx && typeis(arg1, notifyKey) && unbox(arg1, notifyKey) == keyRepeatInterval
+//@   ensures [the-stored-value-of-its-type] count("Context).Value") == 1 && result1 == typeis(ret("Context).Value"), time.Duration) && (result1 ==> result0 == unbox(ret("Context).Value"), time.Duration))
+//@   noeffect Context).Value
+//@ func ReceiverName
+//@   props C04 C20
+//@   nosafe
+//@   at call Context).Value assert [read-under-its-own-key] arg0 == ctx && typeis(arg1, notifyKey) && unbox(arg1, notifyKey) == keyReceiverName
+//@   ensures [the-stored-value-of-its-type] count("Context).Value") == 1 && result1 == typeis(ret("Context).Value"), string) && (result1 ==> result0 == unbox(ret("Context).Value"), string))
+//@   noeffect Context).Value
+//@ func GroupKey
+//@   props C04 C20
+//@   nosafe
+//@   at call Context).Value assert [read-under-its-own-key] arg0 == ctx && typeis(arg1, notifyKey) && unbox(arg1, notifyKey) == keyGroupKey
+//@   ensures [the-stored-value-of-its-type] count("Context).Value") == 1 && result1 == typeis(ret("Context).Value"), string) && (result1 ==> result0 == unbox(ret("Context).Value"), string))
+//@   noeffect Context).Value
+//@ func GroupLabels
+//@   props C04 C20
+//@   nosafe
+//@   at call Context).Value assert [read-under-its-own-key] arg0 == ctx && typeis(arg1, notifyKey) && unbox(arg1, notifyKey) == keyGroupLabels
+//@   ensures [the-stored-value-of-its-type] count("Context).Value") == 1 && result1 == typeis(ret("Context).Value"), model.LabelSet) && (result1 ==> result0 == unbox(ret("Context).Value"), model.LabelSet))
+//@   noeffect Context).Value
+//@ func RouteLabels
+//@   props C04 C20
+//@   nosafe
+//@   at call Context).Value assert [read-under-its-own-key] arg0 == ctx && typeis(arg1, notifyKey) && unbox(arg1, notifyKey) == keyRouteLabels
+//@   ensures [the-stored-value-of-its-type] count("Context).Value") == 1 && result1 == typeis(ret("Context).Value"), model.LabelSet) && (result1 ==> result0 == unbox(ret("Context).Value"), model.LabelSet))
+//@   noeffect Context).Value
+//@ func Now
+//@   props C04 C20
+//@   nosafe
+//@   at call Context).Value assert [read-under-its-own-key] arg0 == ctx && typeis(arg1, notifyKey) && unbox(arg1, notifyKey) == keyNow
+//@   ensures [the-stored-value-of-its-type] count("Context).Value") == 1 && result1 == typeis(ret("Context).Value"), time.Time) && (result1 ==> result0 == unbox(ret("Context).Value"), time.Time))
+//@   noeffect Context).Value
+//@ func FiringAlerts
+//@   props C04 C20
+//@   nosafe
+//@   at call Context).Value assert [read-under-its-own-key] arg0 == ctx && typeis(arg1, notifyKey) && unbox(arg1, notifyKey) == keyFiringAlerts
+//@   ensures [the-stored-value-of-its-type] count("Context).Value") == 1 && result1 == typeis(ret("Context).Value"), []uint64) && (result1 ==> result0 == unbox(ret("Context).Value"), []uint64))
+//@   noeffect Context).Value
+//@ func ResolvedAlerts
+//@   props C04 C20
+//@   nosafe
+//@   at call Context).Value assert [read-under-its-own-key] arg0 == ctx && typeis(arg1, notifyKey) && unbox(arg1, notifyKey) == keyResolvedAlerts
+//@   ensures [the-stored-value-of-its-type] count("Context).Value") == 1 && result1 == typeis(ret("Context).Value"), []uint64) && (result1 ==> result0 == unbox(ret("Context).Value"), []uint64))
+//@   noeffect Context).Value
+//@ func MuteTimeIntervalNames
+//@   props C04 C20
+//@   nosafe
+//@   at call Context).Value assert [read-under-its-own-key] arg0 == ctx && typeis(arg1, notifyKey) && unbox(arg1, notifyKey) == keyMuteTimeIntervals
+//@   ensures [the-stored-value-of-its-type] count("Context).Value") == 1 && result1 == typeis(ret("Context).Value"), []string) && (result1 ==> result0 == unbox(ret("Context).Value"), []string))
+//@   noeffect Context).Value
+//@ func ActiveTimeIntervalNames
+//@   props C04 C20
+//@   nosafe
+//@   at call Context).Value assert [read-under-its-own-key] arg0 == ctx && typeis(arg1, notifyKey) && unbox(arg1, notifyKey) == keyActiveTimeIntervals
+//@   ensures [the-stored-value-of-its-type] count("Context).Value") == 1 && result1 == typeis(ret("Context).Value"), []string) && (result1 ==> result0 == unbox(ret("Context).Value"), []string))
+//@   noeffect Context).Value
+//@ func RouteID
+//@   props C04 C20
+//@   nosafe
+//@   at call Context).Value assert [read-under-its-own-key] arg0 == ctx && typeis(arg1, notifyKey) && unbox(arg1, notifyKey) == keyRouteID
+//@   ensures [the-stored-value-of-its-type] count("Context).Value") == 1 && result1 == typeis(ret("Context).Value"), string) && (result1 ==> result0 == unbox(ret("Context).Value"), string))
+//@   noeffect Context).Value
+//@ func NotificationReason
+//@   props C04 C20
+//@   nosafe
+//@   at call Context).Value assert [read-under-its-own-key] arg0 == ctx && typeis(arg1, notifyKey) && unbox(arg1, notifyKey) == keyNotificationReason
+//@   ensures [the-stored-value-of-its-type] count("Context).Value") == 1 && result1 == typeis(ret("Context).Value"), NotifyReason) && (result1 ==> result0 == unbox(ret("Context).Value"), NotifyReason))
+//@   noeffect Context).Value
+//@ func MutedAlerts
+//@   props C04 C20
+//@   nosafe
+//@   at call Context).Value assert [read-under-its-own-key] arg0 == ctx && typeis(arg1, notifyKey) && unbox(arg1, notifyKey) == keyMutedAlerts
+//@   ensures [the-stored-value-of-its-type] count("Context).Value") == 1 && result1 == typeis(ret("Context).Value"), map[uint64]struct{}) && (result1 ==> result0 == unbox(ret("Context).Value"), map[uint64]struct{}))
+//@   noeffect Context).Value
+//@ func AggrGroupID
+//@   props C04 C20
+//@   nosafe
+//@   at call Context).Value assert [read-under-its-own-key] arg0 == ctx && typeis(arg1, notifyKey) && unbox(arg1, notifyKey) == keyAggrGroupID
+//@   ensures [the-stored-value-of-its-type] count("Context).Value") == 1 && result1 == typeis(ret("Context).Value"), string) && (result1 ==> result0 == unbox(ret("Context).Value"), string))
+//@   noeffect Context).Value
+//@ func FlushID
+//@   props C04 C20
+//@   nosafe
+//@   at call Context).Value assert [read-under-its-own-key] arg0 == ctx && typeis(arg1, notifyKey) && unbox(arg1, notifyKey) == keyFlushID
+//@   ensures [the-stored-value-of-its-type] count("Context).Value") == 1 && result1 == typeis(ret("Context).Value"), uint64) && (result1 ==> result0 == unbox(ret("Context).Value"), uint64))
+//@   noeffect Context).Value
+//@ func GroupMatchers
+//@   props C04 C20
+//@   nosafe
+//@   at call Context).Value assert [read-under-its-own-key] arg0 == ctx && typeis(arg1, notifyKey) && unbox(arg1, notifyKey) == keyGroupMatchers
+//@   ensures [the-stored-value-of-its-type] count("Context).Value") == 1 && result1 == typeis(ret("Context).Value"), labels.Matchers) && (result1 ==> result0 == unbox(ret("Context).Value"), labels.Matchers))
+//@   noeffect Context).Value
+//@ func NflogStore
+//@   props C04 C20
+//@   nosafe
+//@   at call Context).Value assert [read-under-its-own-key] arg0 == ctx && typeis(arg1, notifyKey) && unbox(arg1, notifyKey) == keyNflogStore
+//@   ensures [the-stored-value-of-its-type] count("Context).Value") == 1 && result1 == typeis(ret("Context).Value"), *nflog.Store) && (result1 ==> result0 == unbox(ret("Context).Value"), *nflog.Store))
+//@   noeffect Context).Value
